@@ -217,6 +217,6 @@ def explore(ref, params=None, *, workers=None, max_paths=200000, max_wall_s=600,
     rep.wall_s = time.perf_counter() - t0
     rep.complete = (
         rep.capped is None and not rep.errors and rep.inconclusive_branches == 0
-        and not any(k for k in rep.aborts if k in ("unknown-pc", "max-decisions"))
+        and not any(k for k in rep.aborts if k in ("max-decisions",))
     )
     return rep
